@@ -73,6 +73,11 @@ inductive CE where
   | dict (kvs : List (Lit × Lit))
   | pairs (ps : List (Lit × String × Lit))
   | relLit (atFirst : Bool) (name : String) (rows : List (Lit × Lit))
+  /-- `{|@, j| ak} <-> {|j, name| kv}` (atLeft) or the operands swapped: a relation built by
+  composition, whose physical heading is [@, name] or [name, @] -/
+  | compose (atLeft : Bool) (name : String) (ak kv : List (Lit × Lit))
+  /-- `{|@| as} <&> {|name| vs}` (atLeft) or swapped: a cross product -/
+  | cross (atLeft : Bool) (name : String) (ks vs : List Lit)
   | empty | tt
   | plain (xs : List Lit)
   | whereNe (e : CE) (i : Int)
@@ -91,6 +96,14 @@ def keyIs (i : Int) (x : V) : Bool :=
 def pairsV (ps : List (Lit × String × Lit)) : List V := ps.map (fun p => V.pair p.2.1 p.1.den p.2.2.den)
 def dictV (kvs : List (Lit × Lit)) : List (V × V) := kvs.map (fun p => (p.1.den, p.2.den))
 
+def composeRows (ak kv : List (Lit × Lit)) : List (V × V) :=
+  (dictV ak).flatMap (fun a => (dictV kv).filterMap (fun b => if a.2 = b.1 then some (a.1, b.2) else none))
+def crossRows (ks vs : List Lit) : List (V × V) :=
+  (Lit.denList ks).flatMap (fun k => (Lit.denList vs).map (fun v => (k, v)))
+
+/-- the heading a relation literal gets: relationBuilder sorts the names -/
+def builderAtFirst (name : String) : Bool := decide ("@" < name)
+
 /-- `n \ S` is defined on sequences: one sugar attribute, integer indices -/
 def seqLike : V → Bool
   | .set [] => true
@@ -108,9 +121,13 @@ def CE.impl : CE → Res Coll
   | .arr off xs => .ok (Impl.newOffsetArray off (Lit.denOpts xs))
   | .dict kvs => .ok (if kvs.isEmpty then .empty else .one (.dict (Impl.newDict (dictV kvs))))
   | .pairs ps => .ok (Impl.build (pairsV ps))
-  | .relLit atFirst name rows =>
+  | .relLit _ name rows =>
+    -- whatever order the literal's heading is written in, the builder sorts the names
     .ok (if rows.isEmpty then .empty
-         else .one (.rel atFirst name (dedup ((dictV rows).map (fun r => if atFirst then r else (r.2, r.1))))))
+         else .one (.rel (builderAtFirst name) name
+           (dedup ((dictV rows).map (fun r => if builderAtFirst name then r else (r.2, r.1))))))
+  | .compose atLeft name ak kv => .ok (Impl.joinPairs atLeft name (composeRows ak kv))
+  | .cross atLeft name ks vs => .ok (Impl.joinPairs atLeft name (crossRows ks vs))
   | .empty => .ok .empty
   | .tt => .ok .true_
   | .plain xs => .ok (Impl.build (Lit.denList xs))
@@ -146,6 +163,8 @@ def CE.spec : CE → Res V
   | .dict kvs => .ok (Lit.dict kvs).den
   | .pairs ps => .ok (V.mkSet (pairsV ps))
   | .relLit _ name rows => .ok (V.mkSet ((dictV rows).map (fun r => V.pair name r.1 r.2)))
+  | .compose _ name ak kv => .ok (V.mkSet ((composeRows ak kv).map (fun r => V.pair name r.1 r.2)))
+  | .cross _ name ks vs => .ok (V.mkSet ((crossRows ks vs).map (fun r => V.pair name r.1 r.2)))
   | .empty => .ok V.none
   | .tt => .ok V.tt
   | .plain xs => .ok (V.mkSet (Lit.denList xs))
@@ -194,6 +213,14 @@ def CE.src : CE → String
     "{|" ++ (if atFirst then s!"@, {name}" else s!"{name}, @") ++ "| " ++
       ", ".intercalate (rows.map (fun r =>
         if atFirst then s!"({r.1.src}, {r.2.src})" else s!"({r.2.src}, {r.1.src})")) ++ "}"
+  | .compose atLeft name ak kv =>
+    let a := "{|@, j| " ++ ", ".intercalate (ak.map (fun r => s!"({r.1.src}, {r.2.src})")) ++ "}"
+    let b := "{|j, " ++ name ++ "| " ++ ", ".intercalate (kv.map (fun r => s!"({r.1.src}, {r.2.src})")) ++ "}"
+    if atLeft then s!"({a} <-> {b})" else s!"({b} <-> {a})"
+  | .cross atLeft name ks vs =>
+    let a := "{|@| " ++ ", ".intercalate (ks.map (fun k => s!"({k.src})")) ++ "}"
+    let b := "{|" ++ name ++ "| " ++ ", ".intercalate (vs.map (fun v => s!"({v.src})")) ++ "}"
+    if atLeft then s!"({a} <&> {b})" else s!"({b} <&> {a})"
   | .empty => "{}"
   | .tt => "true"
   | .plain xs => (Lit.set xs).src
@@ -400,18 +427,42 @@ def genPairs : Gen CE := do
               else genElem
       pure ((Lit.num k, name, v) : Lit × String × Lit)
     else do
-      let name ← pick ["a", "a", "b"]
+      let name ← pick ["a", "a", "b", "$a"]
       pure ((← pick keyPool), name, (← genElem)))
   pure (.pairs ps)
 
 def genRel : Gen CE := do
   let n ← rand 4
   let rows ← genList (n + 1) (do pure ((← pick keyPool), (← genElem)))
-  pure (.relLit (← chance 1 2) (← pick ["a", "b", "x"]) rows)
+  pure (.relLit (← chance 1 2) (← pick ["a", "b", "x", "$a"]) rows)
+
+/-- attribute names sorting before (`$a`) and after (`a`) `@`, and the sugared ones -/
+def joinNames : List String := ["$a", "a", "a", "@value", "@item", "@char"]
+
+/-- a two-attribute relation with `@` built by a composition or a cross product, in either operand
+order (so that `@` is physically the first or the last column), 1–3 rows per operand, keys repeated -/
+def genJoinRelNamed (name : String) : Gen (CE × String) := do
+  let atLeft ← chance 1 2
+  let numericOnly := name == "@item" || name == "@char"
+  let genKey : Gen Lit := do
+    if numericOnly || (← chance 3 4) then do pure (Lit.num (← randInt (-1) 2)) else pick keyPool
+  let genVal : Gen Lit := if name == "@char" then do pure (Lit.num (97 + (← rand 3))) else genElem
+  let side := if atLeft then "L" else "R"
+  if (← chance 3 4) then do
+    let ak ← genList (1 + (← rand 3)) (do pure ((← genKey), Lit.num (1 + (← rand 3))))
+    let kv ← genList (1 + (← rand 3)) (do pure (Lit.num (1 + (← rand 3)), (← genVal)))
+    pure (.compose atLeft name ak kv, s!"reljoin/{name}/compose-{side}")
+  else do
+    let ks ← genList (1 + (← rand 2)) genKey
+    let vs ← genList (1 + (← rand 2)) genVal
+    pure (.cross atLeft name ks vs, s!"reljoin/{name}/cross-{side}")
+
+def genJoinRel : Gen (CE × String) := do genJoinRelNamed (← pick joinNames)
 
 /-- a keyed collection and the name of its representation stratum -/
 def genKeyed : Gen (CE × String) := do
-  let r ← rand 20
+  let r ← rand 25
+  if r ≥ 20 then genJoinRel else
   if r < 8 then do
     let k ← genSK
     let (c, how) ← genSeq k
@@ -542,8 +593,9 @@ def genCase (idx : Nat) : Gen Case := do
     -- `++` over all pairs of kinds, offset / sparse operands included
     let ka ← genSK
     let kb ← genSK
-    let (a, ha) ← genSeq ka
-    let (b, hb) ← if (← chance 1 6) then do pure ((← genDictLit), "dict") else genSeq kb
+    let (a, ha) ← if (← chance 1 6) then genJoinRelNamed (← pick ["$a", "a", "@item", "@char"]) else genSeq ka
+    let r ← rand 6
+    let (b, hb) ← if r == 0 then do pure ((← genDictLit), "dict") else if r == 1 then genJoinRel else genSeq kb
     let e := CE.concat a b
     if (← chance 1 4) then do
       let (x, ak) ← genArgFor e
@@ -569,6 +621,65 @@ def genCase (idx : Nat) : Gen Case := do
     else if r == 1 then pure (mkSafe id "nonkeyed/safecall" c (.lit (.num 0)))
     else pure (mkValue id "nonkeyed/seqarrow" (.arrow false .ident c))
 
+/-- the rows of a join-built relation as literals (for writing the same collection another way) -/
+def joinRowsL : CE → List (Lit × Lit)
+  | .compose _ _ ak kv =>
+    ak.flatMap (fun a => kv.filterMap (fun b => if a.2.den = b.1.den then some (a.1, b.2) else none))
+  | .cross _ _ ks vs => ks.flatMap (fun k => vs.map (fun v => (k, v)))
+  | _ => []
+def joinName : CE → String
+  | .compose _ n _ _ => n
+  | .cross _ n _ _ => n
+  | _ => ""
+
+def intKeys (rows : List (Lit × Lit)) : Option (List (Int × Lit)) :=
+  rows.mapM (fun r => match r.1 with | .num i => some (i, r.2) | _ => none)
+
+/-- the same collection written as a dict / array literal when it is one, else as a set of pairs or
+a relation literal -/
+def literalTwin (c : CE) : Gen (CE × String) := do
+  let rows := Lit.dedupBy (fun r => V.mkArr [r.1.den, r.2.den]) (joinRowsL c)
+  let name := joinName c
+  let distinct := (Lit.dedupBy (fun r => r.1.den) rows).length == rows.length
+  if name == "@value" && distinct && (← chance 2 3) then pure (.dict rows, "dict-literal")
+  else if name == "@item" && distinct && !rows.isEmpty && (← chance 2 3) then
+    match intKeys rows with
+    | some iks =>
+      let lo := iks.foldl (fun m t => min m t.1) (iks.headD (0, .num 0)).1
+      let hi := iks.foldl (fun m t => max m t.1) lo
+      let slots := (List.range (hi - lo + 1).toNat).map (fun j => (iks.find? (fun t => t.1 == lo + Int.ofNat j)).map (·.2))
+      pure (.arr lo slots, "array-literal")
+    | none => pure (.pairs (rows.map (fun r => (r.1, name, r.2))), "pairs-literal")
+  else if (name == "a" || name == "$a") && !rows.isEmpty && (← chance 1 2) then
+    pure (.relLit (← chance 1 2) name rows, "rel-literal")
+  else pure (.pairs (rows.map (fun r => (r.1, name, r.2))), "pairs-literal")
+
+/-- harness op `relshape`: the physical column of `@` in a Relation (model fidelity only: the
+specification does not care, so a difference is counted as drift) -/
+def mkShape (id : String) (c : CE) : List Case :=
+  match c.impl with
+  | .ok (.one (.rel atFirst _ _)) =>
+    [{ id := id, cls := "good", kind := "relshape", stratum := "relshape",
+       model := if atFirst then "at=0" else "at=1", spec := "!panic", payload := [c.src] }]
+  | _ => []
+
+/-- representation independence: a join-built relation and the same collection written as a literal
+get the same argument; both must answer as the specification says (hence identically) -/
+def genRepIndep (idx : Nat) : Gen (List Case) := do
+  let id := s!"C05-{idx}"
+  let (c, rep) ← genJoinRel
+  let (twin, how) ← literalTwin c
+  let (a, ak) ← genArgFor c
+  let r ← rand 4
+  let both (f : String → String → CE → Case) : List Case :=
+    [f (id ++ "r") s!"repindep/{rep}/{ak}" c, f (id ++ "t") s!"repindep/{how}/{ak}" twin]
+  let cases : List Case :=
+    if r == 0 then both (fun i st x => mkSafe i st x a)
+    else if r == 1 then
+      both (fun i st x => mkValue i (st ++ "/seqarrow") (.arrow true .keyOnly x))
+    else both (fun i st x => mkCall i st x a)
+  pure (cases ++ mkShape (id ++ "s") c ++ (if (← chance 1 3) then mkShape (id ++ "u") twin else []))
+
 /-- witnesses of the repaired defects and of the known findings; always run first -/
 def corpus : List Case :=
   let ab := CE.str 0 [97, 98]
@@ -590,6 +701,16 @@ def corpus : List Case :=
       (.pairs [(.num 1, "a", .num 2), (.num 1, "b", .num 2)]) (.lit (.num 1)),
     mkValue "C05-corpus-12" "corpus/offset-compose"
       (.offset (.lit (.num 1)) (.offset (.lit (.num 2)) ab)),
+    -- relations whose `@` is physically the last column (composition with the @ side on the right,
+    -- cross product, a name sorting before `@`): the call returns the value, not the key
+    mkCall "C05-corpus-14" "corpus/rel-at-last-compose"
+      (.compose false "a" [(.num 1, .num 2)] [(.num 2, .num 30)]) (.lit (.num 1)),
+    mkCall "C05-corpus-15" "corpus/rel-at-last-toomany"
+      (.compose false "a" [(.num 1, .num 2), (.num 1, .num 3)] [(.num 2, .num 30), (.num 3, .num 31)]) (.lit (.num 1)),
+    mkCall "C05-corpus-16" "corpus/rel-at-last-cross" (.cross false "a" [.num 1] [.num 30, .num 31]) (.lit (.num 1)),
+    mkCall "C05-corpus-17" "corpus/rel-name-before-at" (.relLit true "$a" [(.num 1, .num 30)]) (.lit (.num 1)),
+    mkSafe "C05-corpus-18" "corpus/rel-at-last-safe"
+      (.compose false "$a" [(.num 1, .num 2)] [(.num 2, .num 30)]) (.lit (.num 30)),
     -- the same member reaches the builder twice: the count of the result must still be 2
     mkValue "C05-corpus-13" "corpus/dup-member-count"
       (.concat (.concat ab (.offset (.lit (.num (-1))) (.str 0 [98]))) (.str 0 [120])) ]
@@ -599,6 +720,9 @@ def gen (seed n : Nat) (_thorough : Bool) : List Case := Id.run do
   for i in [0:n] do
     let (c, _) := (genCase i).run (seedOf seed (500000 + i))
     out := c :: out
+    if i % 6 == 0 then
+      let (cs, _) := (genRepIndep i).run (seedOf seed (900000 + i))
+      out := cs.reverse ++ out
   pure out.reverse
 
 end Arrai.C05
